@@ -6,6 +6,7 @@ CONSTANTS
   ExitLinked = TRUE
   StopAfterAnswer = TRUE
   ResumeAllEdges = FALSE
+  StartNodePerFlow = TRUE
   StepCap = 600
   CheckLoader = FALSE
 SPECIFICATION Spec
